@@ -1,14 +1,14 @@
 #!/bin/sh
-# tools/mut.sh <check ids, comma separated> <file relative to repo> <sed expression>
+# tools/mut.sh <check ids, comma separated> <file relative to repo> <sed expression> [corpus file]
 # applies one edit to a scratch copy of /repo (outside /repo and /verif), checks it still compiles,
 # runs the named checks against it and removes the copy.
-ids=$1; file=$2; expr=$3
+ids=$1; file=$2; expr=$3; corp=${4:-core}
 d=$(mktemp -d /tmp/mut.XXXXXX)
 rsync -a --exclude _build --exclude .git /repo/ $d/
 sed -i "$expr" $d/$file
 if diff -q /repo/$file $d/$file >/dev/null; then echo "MUTATION DID NOT APPLY"; rm -rf $d; exit 3; fi
 diff /repo/$file $d/$file | head -8
-if ! clang++ -std=c++17 -I$d/include -fsyntax-only -w /verif/corpus/core.cpp 2>/tmp/mut.err; then echo "DOES NOT COMPILE"; head -5 /tmp/mut.err; rm -rf $d; exit 4; fi
+if ! clang++ -std=c++17 -I$d/include -fsyntax-only -w /verif/corpus/$corp.cpp 2>/tmp/mut.err; then echo "DOES NOT COMPILE"; head -5 /tmp/mut.err; rm -rf $d; exit 4; fi
 for id in $(echo $ids | tr , ' '); do
   VERIF_REPO=$d VERIF_EVIDENCE_DIR=$d/ev /verif/check $id 2>&1 | grep -v "^VIOLATION" | cut -c1-330 | tail -4
 done
